@@ -187,6 +187,58 @@ CHECKS["C19"] = dict(
          "accepted command.",
     technique="exhaustive enumeration of joint histories with a relational (differential) oracle between the two implementations")
 
+# what the checks grew after the texts above were written (rounds of seeded changes, DESIGN.md §8): appended to the text
+ADDED = {
+    "C01": "Also: back-pressure (a stream stalled at open or later, released once; a closed stream lingering on unsent bytes), "
+           "the same message submitted repeatedly under mixed policies, families up to 13 sends in one outage (refused sends "
+           "stay refused), and a message accepted on an open connection with nothing ahead of it goes to the transport at once.",
+    "C02": "Also: stalled streams with expiry corners, policy objects shared per client as the library's callers share them, six "
+           "commands with one failure each in one session, the AirTouch 4 group status poll on a dead link.",
+    "C03": "Thorough adds the full products of fields that share a wire byte.",
+    "C04": "Also: the same calls while the link is down, all 3-sequences of five calls (incl. two timer commands) inside one "
+           "outage, concurrently on a live link, and concurrently on a stalled link (whose transport keeps references to the "
+           "buffers it was given).",
+    "C05": "Also: the single-byte sweep repeated with the library's loggers at DEBUG; decoder history independence (all triples "
+           "over valid / rejected / other-stride payloads per layout against a brand-new registry; across layouts against the "
+           "reference, every first-use order of a stride); a names payload decodes to its own entries only.",
+    "C06": "Also: bursts enumerated in the code's own bit order; the damaged copy of a frame right after the intact one; the "
+           "message callback subscribed twice.",
+    "C07": "Also: failed connects and link errors that are not ConnectionErrors, an AttributeError-raising message, a client whose "
+           "connection subscriber does not send, eight backbone scripts (stalled stream given up and lingering in close(), stale "
+           "retry during a lingering close, reset while the read task is parked inside a frame) with every event at every turn "
+           "boundary; a closed stream lingering on unsent bytes counts as held; the probe command must be exactly its own frame; "
+           "the library's own 'Unhandled exception in background task' report counts as an unhandled exception.",
+    "C08": "Also: API initialised late (console unreachable when init() is called), outage longer than the timeout, idling to "
+           "the horizon when no timer is armed, and scripted cases of a silent AND stalled link whose close lingers 1-100 s after "
+           "the heartbeat reset.",
+    "C09": "Also: console reachable late, every attempt slow (9 latencies), failed attempts of five kinds, re-connection storm cut "
+           "off after 40 connections inside one handshake.",
+    "C10": "Also: every history as one segment, all walks over the reported modes, re-init of the same object with the "
+           "installation changed meanwhile, a zone-less AC, an AC in error at connect, two clients of one generation side by side.",
+    "C11": "Also: a timer command lost in an outage, AC status (timer flag both ways) between timer report and calls, a status "
+           "reporting an unadvertised mode/fan, sensor / turbo flags reported the other way round on the same zone objects.",
+    "C12": "Also: one callable in both AC subscriber sets, slow subscribers, API commands answered by the console, families of "
+           "related events at depth 4-5 (error code / text with lost replies and a write fault; timers).",
+    "C13": "Also: the client transmits between segments, 1-299 s of silence between segments, streams with a damaged frame.",
+    "C14": "Also: silent console, accepted connection whose first write fails, link error loss, ten commands during the outage, a "
+           "status volunteered mid-reaction, 700 s muted / silent phases and 1000 s of healthy idle time after every script, and "
+           "the socket scenario of C07 explored under one clause (the last notification says connected and belongs to the live "
+           "connection).",
+    "C15": "Also: seven backbones (write errors, heartbeat and command parked behind a stalled stream), residual tasks/timers judged "
+           "at the instant shutdown() returns, second life compared with a fresh object's over 700 s, init() again the moment "
+           "shutdown() has returned and inside the same application task.",
+    "C16": "Also: stalled final phase, send at every turn boundary of close(), stalled link dying with parked writers, ten sends "
+           "from the disconnected notification after a half-open write failure, back-off window with no attempt in flight, two "
+           "clients side by side (run first).",
+    "C17": "Unchanged in scope; runs on the strengthened transport and console models.",
+    "C18": "Also: discover() with one answer per generation at all 13x13 pairs of instants, a renamed console, a datagram with the "
+           "marker but no text.",
+    "C19": "Also: a control-method change the consoles never report, init() with the link dropped at each of the six steps, six "
+           "commands during outages of 0.5-31 s, an installation already in error at connect.",
+}
+for _pid, _txt in ADDED.items():
+    CHECKS[_pid]["text"] = CHECKS[_pid]["text"].rstrip() + " " + _txt
+
 NOT_YET = {}
 
 
